@@ -7,7 +7,10 @@ import QGen.C04
 Part 1 (this section): the four equality projections of `QModel.C04`, over an arbitrary linearly ordered
 field `K` (so literally for the executed instance `Rat`), for all `d` (`n = d²` is arbitrary here), all
 outcome counts `m`: membership, orthogonality of the residual to every feasible direction, nearest point,
-uniqueness, idempotence, fixed points; object level = variable level for both flags.
+uniqueness, idempotence, fixed points; object level = variable level: with content for flag True (all four types) and for the Gate
+flat-index routine with flag False; for State / Povm / MProcess with flag False the statement is definitional in the model (the
+separate `_with_var` code sites are tied by the correspondence and the oracle).  Purity (argument unchanged) is NOT a theorem:
+snapshots in the correspondence / oracle only.
 -/
 open Finset
 namespace QM.C04
@@ -46,7 +49,8 @@ theorem state_projEq_idem (s : K) (v : Vec K n) :
     State.projEq s (State.projEq s v) = State.projEq s v :=
   state_projEq_fix s _ (state_projEq_mem s v)
 
-/-- C04.3 (State) `calc_proj_eq_constraint_with_var(…, False)` is the object-level projection. -/
+/-- C04.3 (State), flag False — DEFINITIONAL in the model (`projEqVar s false` unfolds to the same `ofFn` as `projEq`); that the two
+separate code sites agree is established by the correspondence (ops `s_eq_obj` / `s_eq_var`) and the oracle. -/
 theorem state_var_eq_obj_F (s : K) (v : Vec K n) : State.projEqVar s false v = State.projEq s v := rfl
 
 /-- C04.3 (State) with the parametrised constraint the variable-level routine returns the variable, and so does
@@ -112,7 +116,8 @@ theorem povm_var_T_id (t : K) (pre : Mat K m n) : Povm.projEqVarT t pre = pre :=
   apply Mat.ext'; intro x i
   simp [Povm.toVarT, Povm.ofVarT]
 
-/-- C04.3 (Povm) flag False: variable level is the object level. -/
+/-- C04.3 (Povm), flag False — DEFINITIONAL in the model (`projEqVarF := projEq`; the `_with_var` site repeats the arithmetic after
+`convert_var_to_vecs`, which is a reshape done by the driver's parser); agreement of the two code sites: correspondence + oracle. -/
 theorem povm_var_eq_obj_F (t : K) (A : Mat K m n) : Povm.projEqVarF t A = Povm.projEq t A := rfl
 
 /-! ## Gate -/
@@ -218,8 +223,62 @@ theorem mprocess_projEq_idem (T : Ten K m n n) (hm : 0 < m) :
     MProcess.projEq (MProcess.projEq T) = MProcess.projEq T :=
   mprocess_projEq_fix _ hm (mprocess_projEq_mem T hm)
 
-/-- C04.3 (MProcess) flag False: variable level is the object level. -/
+/-- C04.3 (MProcess), flag False — DEFINITIONAL in the model (`projEqVarF := projEq`); agreement of the two code sites:
+correspondence + oracle. -/
 theorem mprocess_var_eq_obj_F (T : Ten K m n n) : MProcess.projEqVarF T = MProcess.projEq T := rfl
+
+/-- C04.3 (MProcess) under the parametrised constraint the completed m-process `ofVarT` is feasible (the first row of the last
+outcome is `e0 − Σ first rows`), hence the variable-level projection returns the variables. -/
+theorem mprocess_var_T_id (pre : Ten K m (n + 1) (n + 1)) (rest : Mat K n (n + 1)) :
+    MProcess.projEqVarT pre rest = (pre, rest) := by
+  have hfeas : MProcess.Feas (MProcess.ofVarT pre rest) := by
+    intro a b ha
+    have ha0 : a = (⟨0, Nat.succ_pos n⟩ : Fin (n + 1)) := Fin.ext ha
+    rw [ha0, Fin.sum_univ_castSucc]
+    simp [MProcess.ofVarT, fsum_eq_sum]
+  unfold MProcess.projEqVarT
+  rw [mprocess_projEq_fix _ (Nat.succ_pos m) hfeas]
+  simp only [MProcess.toVarT, Prod.mk.injEq]
+  constructor
+  · apply Ten.ext'; intro x a b; simp [MProcess.ofVarT]
+  · apply Mat.ext'; intro a b; simp [MProcess.ofVarT]
+
+/-! ## uniqueness of the nearest feasible point (all four types) -/
+
+/-- C04.1 uniqueness: a feasible point at least as close as the projection IS the projection. -/
+theorem state_projEq_unique (s : K) (v y : Vec K n) (hy : State.Feas s y) (h : sqd1 v y ≤ sqd1 v (State.projEq s v)) :
+    y = State.projEq s v := by
+  rw [sqd1_eq, sqd1_eq] at h
+  have := eq_of_vi_of_le (fun i => v.get i) (fun i => (State.projEq s v).get i) (fun i => y.get i)
+    (le_of_eq (by simpa [ip1, Vec.sub] using state_projEq_orth s v y hy)) h
+  apply Vec.ext'; intro i; exact congrFun this i
+
+/-- C04.1 uniqueness (Povm). -/
+theorem povm_projEq_unique (t : K) (A Y : Mat K m n) (hm : 0 < m) (hY : Povm.Feas t Y)
+    (h : sqd2 A Y ≤ sqd2 A (Povm.projEq t A)) : Y = Povm.projEq t A := by
+  rw [sqd2_eq, sqd2_eq] at h
+  have := eq_of_vi_of_le (fun xi : Fin m × Fin n => A.get xi.1 xi.2) (fun xi => (Povm.projEq t A).get xi.1 xi.2)
+    (fun xi => Y.get xi.1 xi.2)
+    (le_of_eq (by simpa [ip2, Mat.sub, Fintype.sum_prod_type] using povm_projEq_orth t A Y hm hY)) h
+  apply Mat.ext'; intro x i; exact congrFun this (x, i)
+
+/-- C04.1 uniqueness (Gate). -/
+theorem gate_projEq_unique (H Y : Mat K n n) (hY : Gate.Feas Y) (h : sqd2 H Y ≤ sqd2 H (Gate.projEq H)) :
+    Y = Gate.projEq H := by
+  rw [sqd2_eq, sqd2_eq] at h
+  have := eq_of_vi_of_le (fun xi : Fin n × Fin n => H.get xi.1 xi.2) (fun xi => (Gate.projEq H).get xi.1 xi.2)
+    (fun xi => Y.get xi.1 xi.2)
+    (le_of_eq (by simpa [ip2, Mat.sub, Fintype.sum_prod_type] using gate_projEq_orth H Y hY)) h
+  apply Mat.ext'; intro a b; exact congrFun this (a, b)
+
+/-- C04.1 uniqueness (MProcess). -/
+theorem mprocess_projEq_unique (T Y : Ten K m n n) (hm : 0 < m) (hY : MProcess.Feas Y)
+    (h : sqd3 T Y ≤ sqd3 T (MProcess.projEq T)) : Y = MProcess.projEq T := by
+  rw [sqd3_eq, sqd3_eq] at h
+  have := eq_of_vi_of_le (fun t : Fin m × Fin n × Fin n => T.get t.1 t.2.1 t.2.2)
+    (fun t => (MProcess.projEq T).get t.1 t.2.1 t.2.2) (fun t => Y.get t.1 t.2.1 t.2.2)
+    (le_of_eq (by simpa [ip3, Ten.sub, Fintype.sum_prod_type] using mprocess_projEq_orth T Y hm hY)) h
+  apply Ten.ext'; intro x a b; exact congrFun this (x, a, b)
 
 /-! ### tie to the source: definitions regenerated from state.py / gate.py on every run (QGen.C04) equal the hand model -/
 
@@ -247,17 +306,21 @@ theorem gen_gate_eq (dim : Nat) (flag : Bool) (hs : Mat K n n) (var : Vec K N) :
         simp [hk, this]
     · rfl
 
-/-- C04.4 purity (repaired defect D5): in the model the caller's array after
-`MProcess.calc_proj_eq_constraint_with_var(c_sys, var, on_para_eq_constraint)` is the array before the call, for both
-flags and every argument (the model functions are pure everywhere else by construction; the correspondence compares
-before/after snapshots of every call site with the model). -/
-theorem mprocess_eq_var_argument_unchanged (T : Ten K m n n) (pre : Ten K m (n + 1) (n + 1))
+/-- NOT a property theorem with content (kept for the record of defect D5, repaired in /repo d072139): in the model the
+"caller's array after the call" is the identity by definition, so this is `rfl`.  Clause C04.4 ("never modify their argument") is
+established by the before/after snapshots of every call site in the correspondence and the oracle ONLY. -/
+theorem mprocess_eq_var_argument_model_trivial (T : Ten K m n n) (pre : Ten K m (n + 1) (n + 1))
     (rest : Mat K n (n + 1)) :
     MProcess.argAfterEqVarF T = T ∧ MProcess.argAfterEqVarT pre rest = (pre, rest) := ⟨rfl, rfl⟩
 
 /-- … and the returned value does not depend on the aliasing either: the result for a feasible argument is the argument. -/
 theorem mprocess_eq_var_F_feasible_unchanged (T : Ten K m n n) (hm : 0 < m) (hT : MProcess.Feas T) :
     MProcess.projEqVarF T = T := mprocess_projEq_fix T hm hT
+
+-- Gate: value, feasibility of the hypotheses of `_fix` / `_nearest` / `_unique`
+example : Gate.projEq (#v[#v[3, 4], #v[5, 6]] : Mat Rat 2 2) = #v[#v[1, 0], #v[5, 6]] := by decide +kernel
+example (H : Mat Rat 2 2) : sqd2 H (Gate.projEq H) ≤ sqd2 H (Gate.projEq (#v[#v[3, 4], #v[5, 6]] : Mat Rat 2 2)) :=
+  gate_projEq_nearest H _ (gate_projEq_mem _)
 
 -- non-vacuity: concrete non-trivial instances (K = ℚ)
 example : State.Feas (1/2 : Rat) (State.projEq (1/2) (#v[3, 4, 5] : Vec Rat 3)) := state_projEq_mem _ _
